@@ -6,6 +6,7 @@ data table, and emits the cases; each is replayed on RecordMap.transform / inver
 Polars frames (rows and columns also permuted) and through convert_records on SQLite.  The same cases feed the
 record-map parts of C11 (equality) and C12 (printing)."""
 import collections
+import hashlib
 import json
 import multiprocessing
 import os
@@ -26,6 +27,15 @@ if common.REPO not in sys.path:
 os.environ.setdefault("DATA_ALGEBRA_VERIF", "1")
 
 
+# names of the value columns of a block: in control-table order they are either alphabetically ascending (v1, v2) or
+# descending (v9, v8); chosen per case (C15: no result may depend on how columns are named)
+_VN = {"desc": False}
+
+
+def _vname(j):
+    return "v%d" % ((9 - j) if _VN["desc"] else (j + 1))
+
+
 def _spec(ct, nrk, key_prefix="ck", strict=True):
     import pandas
     from data_algebra.cdata import RecordSpecification
@@ -35,7 +45,7 @@ def _spec(ct, nrk, key_prefix="ck", strict=True):
     for j in range(nk):
         cols["%s%d" % (key_prefix, j + 1)] = [row[j] for row in ct["keys"]]
     for j in range(nv):
-        cols["v%d" % (j + 1)] = [row[j] for row in ct["cells"]]
+        cols[_vname(j)] = [row[j] for row in ct["cells"]]
     control = pandas.DataFrame(cols)
     return RecordSpecification(control, record_keys=["id%d" % (i + 1) for i in range(nrk)],
                                control_table_keys=["%s%d" % (key_prefix, j + 1) for j in range(nk)], strict=strict)
@@ -55,7 +65,7 @@ def _blocks_frame(blocks, nrk, key_prefix="ck", ct=None):
     import pandas
     if len(blocks) == 0:
         nk, nv = len(ct["keys"][0]), len(ct["cells"][0])
-        cols = ["id%d" % (i + 1) for i in range(nrk)] + ["%s%d" % (key_prefix, j + 1) for j in range(nk)] + ["v%d" % (j + 1) for j in range(nv)]
+        cols = ["id%d" % (i + 1) for i in range(nrk)] + ["%s%d" % (key_prefix, j + 1) for j in range(nk)] + [_vname(j) for j in range(nv)]
         return pandas.DataFrame({c: pandas.Series([], dtype=("str" if c.startswith(key_prefix) else "float64")) for c in cols})
     nk = len(blocks[0]["ck"])
     nv = len(blocks[0]["v"])
@@ -63,7 +73,7 @@ def _blocks_frame(blocks, nrk, key_prefix="ck", ct=None):
     for j in range(nk):
         data["%s%d" % (key_prefix, j + 1)] = [b["ck"][j] for b in blocks]
     for j in range(nv):
-        data["v%d" % (j + 1)] = [float(b["v"][j]) for b in blocks]
+        data[_vname(j)] = [float(b["v"][j]) for b in blocks]
     return pandas.DataFrame(data)
 
 
@@ -109,6 +119,7 @@ def _w_c17(case):
     if len(case["ctrl"]["keys"]) < 2:
         # a one-row control table IS the row-record form; RecordMap asks for a real block layout
         return {"status": "skip", "stats": {"one_row_control_table": 1}}
+    _VN["desc"] = (int(hashlib.sha1(json.dumps(case, sort_keys=True).encode()).hexdigest(), 16) % 2) == 1
     spec = _spec(case["ctrl"], nrk)
     tall = _spec(case["tall"], nrk, key_prefix="tk")
     rows = _rows_frame(case)
